@@ -267,6 +267,18 @@ def check_path(ctx):
     opq = {B32 + "deserialized_extended_key", B32 + "serialized_extended_key", B32 + "CKDpriv", B32 + "CKDpub", B32 + "point", B32 + "ser_p",
            "bits.utils.pubkey_hash"}
     ev = ctx.evaluator(opaque=opq)
+    # refusals propagate: the child derivation call is not wrapped in a handler that swallows CKD's errors
+    import ast as _ast
+
+    def _is_ckd(c):
+        f = c.func
+        return (isinstance(f, _ast.Name) and f.id.lower().startswith("ckd")) or (isinstance(f, _ast.Attribute) and f.attr in ("CKDpriv", "CKDpub"))
+    ncall = sum(1 for n in _ast.walk(fi.node) if isinstance(n, _ast.Call) and _is_ckd(n))
+    R.floor("C09.6", ncall, 1, "ckd_calls_in_derive_from_path")
+    wrapped = [(c, hs) for c, hs in rules.enclosing_try_handlers(fi.node, _is_ckd) if set(hs) & {"AssertionError", "ValueError", "Exception", "BaseException"}]
+    R.check("C09.6", "EXC", fi, "CKD refusals (hardened-from-public, invalid child) propagate out of derive_from_path", not wrapped,
+            "the child derivation call is inside try/except %s: a refusal of CKDpub/CKDpriv is swallowed" % (wrapped[0][1] if wrapped else ""),
+            line=wrapped[0][0].lineno if wrapped else None, example="M/0' from an extended public key")
     path, mk = P("path", tm.STR), P("master_extended_key", tm.BYTES)
     des0 = tm.app(B32 + "deserialized_extended_key", [mk, False], ty=tm.ANY)
     ver0 = T("proj", (des0, 0))
